@@ -139,7 +139,7 @@ pub fn make_scenario(rng : &mut Rng, prop : &str, thorough : bool) -> Scenario
             4 =>
             {
                 // one script line of a two-line command fails, the other succeeds
-                if !run.world.rules.iter().any(|r| r.split && r.outs.len() >= 2 && r.sources.contains(&l)) { continue; }
+                if !run.world.rules.iter().any(|r| (r.precheck || (r.split && r.outs.len() >= 2)) && r.sources.contains(&l)) { continue; }
                 HOp::PoisonFailStep(l, rng.below(2))
             },
             1 =>
@@ -288,7 +288,8 @@ pub fn drive(prop : &str)
             found.extend(world::m_cas(&obs.after).0);
             found.extend(world::m_keep(&obs.before, &obs.after, &sc.run.world.ever_targets).0);
             found.extend(world::m_scope(&obs).0);
-            if fail_clean { found.extend(world::m_status(&obs).0); }
+            let _ = fail_clean;
+            found.extend(world::m_status(&obs).0);
 
             // C06: compare with the first schedule of this scenario
             let this = outcome(&obs);
